@@ -133,6 +133,12 @@ def inside(poslist, cs, ce):
     return [p for p in poslist if cs <= p < ce]
 
 
+def setup(ctx):
+    from bcv import core
+
+    core.codon_storm(ctx)
+
+
 def selftest():
     from bcv.core import HarnessError
 
